@@ -83,6 +83,11 @@ def configs(tier, seed):
         for y in ((not s0, n0 + 2, f0), (not s0, n0, f0), (s0, n0 + 3, f0), (s0, n0 - 1, f0), (s0, n0, f0 + 1), (not s0, n0 - 1, f0), (not s0, n0 + 1, f0 + 1)):
             r, o = rng.choice(C.modes())
             out.append(dict(part='convert', route=rng.choice(('resize', 'resize_partial')), x=list(x), y=list(y), rounding=r, overflow=o))
+    # rarely used size-argument combinations of resize / the constructor (n_int alone, n_int with like=, all three lengths, dtype with n_int)
+    for x in C.pick([q for q in sm if q[1] >= 3 and 0 <= q[2] <= q[1]], N(5, 30), rng):
+        for combo in ('resize_nint', 'resize_nint_word', 'resize_nint_frac', 'resize_signed', 'resize_all_four', 'like_nint', 'like_signed', 'ctor_all_four',
+                      'ctor_dtype_nint', 'ctor_nint_word', 'ctor_nint_frac'):
+            out.append(dict(part='argcombo', combo=combo, x=list(x), k=rng.choice((0, 1, 2, 5))))
     # reductions and element-wise NumPy functions (both call routes)
     for _ in range(N(60, 600)):
         x = rng.choice([f for f in sm if f[1] <= 8])
@@ -120,7 +125,7 @@ def _k(shape):
 def inputs(cfg):
     p = cfg['part']
     sp = {}
-    if p in ('binop', 'constop', 'unary', 'shift', 'bitop', 'convert', 'reduce'):
+    if p in ('binop', 'constop', 'unary', 'shift', 'bitop', 'convert', 'reduce', 'argcombo'):
         lo, hi = SP.limits(cfg['x'][0], cfg['x'][1])
         for i in range(_k(cfg.get('shape') or [])):
             sp['a%d' % i] = dict(kind='int', lo=lo, hi=hi)
@@ -267,6 +272,40 @@ def run(F, cfg, inp):
             d = F.Fxp([0, 0], ds, dn, df, **kw)
             d[0] = src
         return dict(r0=wf(d), x=wf(src))
+    if p == 'argcombo':
+        s0, n0, f0 = cfg['x']
+        k = cfg['k']
+        x = _mk(F, cfg['x'], a, [])
+        c = cfg['combo']
+        if c == 'resize_nint':
+            x.resize(n_int=k)
+            d = x
+        elif c == 'resize_nint_word':
+            x.resize(n_word=n0 + 2, n_int=k)
+            d = x
+        elif c == 'resize_nint_frac':
+            x.resize(n_frac=f0 + 1, n_int=k)
+            d = x
+        elif c == 'resize_signed':
+            x.resize(signed=not s0)
+            d = x
+        elif c == 'resize_all_four':
+            x.resize(signed=s0, n_word=n0 + 1, n_frac=f0, n_int=k)
+            d = x
+        elif c == 'like_nint':
+            d = F.Fxp(x, like=x, n_int=k)
+        elif c == 'like_signed':
+            d = F.Fxp(x, like=x, signed=not s0)
+        elif c == 'ctor_all_four':
+            d = F.Fxp(x(), s0, n0, f0, n_int=k)
+        elif c == 'ctor_dtype_nint':
+            d = F.Fxp(x(), dtype=C.fmt_str(s0, n0, f0), n_int=k)
+        elif c == 'ctor_nint_word':
+            d = F.Fxp(x(), s0, n_word=n0, n_int=min(k, n0 - int(s0)))
+        else:
+            d = F.Fxp(x(), s0, n_frac=f0, n_int=k)
+        # and the derived object is used once more: results of arithmetic on it must be well-formed too
+        return dict(r0=wf(d), r1=wf(d + d), r2=wf(d.like(d)))
     if p == 'reduce':
         x = _mk(F, cfg['x'], a, shape)
         fn = cfg['fn']
